@@ -67,22 +67,37 @@ package commonmark
 //@   serves C05
 
 //@ func closure(parseListMarker)
-//@   requires !isnil(p)
+//@   requires !isnil(p) && CursorOK(p)
 //@   modifies everything
-//@   havoccall (*lineParser).Indent, (*lineParser).BytesAfterIndent, (*lineParser).ContainerKind, (*lineParser).ContainerListDelim, (*lineParser).ConsumeIndent, (*lineParser).OpenListBlock, (*lineParser).OpenBlock, (*lineParser).Advance, (*lineParser).EndBlock, (*lineParser).IsRestBlank, (*lineParser).SetContainerIndent, (*lineParser).ConsumeLine
+//@   havoccall (*lineParser).ContainerKind, (*lineParser).ContainerListDelim, (*lineParser).OpenListBlock, (*lineParser).OpenBlock, (*lineParser).EndBlock, (*lineParser).SetContainerIndent keeps lineParser.i, lineParser.col, lineParser.line, lineParser.tabRemaining, elems:byte
 //@   ghost items = 0
 //@   ghost markers = 0
 //@   ghost pending = 0
+//@   ghost markerStart = 0
 //@   callsite (*lineParser).OpenListBlock: requires[kinds] $1 == ListKind || $1 == ListItemKind
 //@   callsite (*lineParser).OpenListBlock: requires[delim] $2 == m.delim && (m.delim == '-' || m.delim == '+' || m.delim == '*' || m.delim == '.' || m.delim == ')')
 //@   callsite (*lineParser).OpenListBlock: requires[nomarker] pending == 0
 //@   callsite (*lineParser).OpenListBlock: ghost pending = ($1 == ListItemKind) ? 1 : 0
 //@   callsite (*lineParser).OpenListBlock: ghost items = ($1 == ListItemKind) ? items + 1 : items
 //@   callsite (*lineParser).OpenBlock: requires[marker] $1 == ListMarkerKind && pending == 1
+//@   -- the marker block opens on the first byte of the marker: a bullet, or the first of 1-9 digits followed by . or )
+//@   callsite (*lineParser).OpenBlock: requires[at-marker] p.i + m.end <= len(p.line) && m.end >= 1
+//@       && (m.end == 1 ? IsBulletChar(p.line[p.i]) : (m.end <= 10 && (forall k in [0, m.end - 1): IsDigit(p.line[p.i + k])) && (p.line[p.i + m.end - 1] == '.' || p.line[p.i + m.end - 1] == ')')))
 //@   callsite (*lineParser).OpenBlock: ghost markers = markers + 1
 //@   callsite (*lineParser).OpenBlock: ghost pending = 0
-//@   callsite (*lineParser).Advance: requires[consume] pending == 0 && markers == 1 && $1 == m.end
+//@   callsite (*lineParser).OpenBlock: ghost markerStart = p.i
+//@   callsite (*lineParser).Advance: requires[consume] pending == 0 && markers == 1 && $1 == m.end && p.i == markerStart
+//@   callsite (*lineParser).EndBlock: requires[marker-end] markers == 1 && p.i == markerStart + m.end
 //@   ensures[first-child] items == markers && pending == 0 && items <= 1
-//@   nosafety index the rest of the line after the marker exists (parseListMarker's range postcondition; the cursor code between is abstracted)
-//@   nosafety slice the rest of the line after the marker exists (parseListMarker's range postcondition; the cursor code between is abstracted)
-//@   serves C05
+//@   callsite (*lineParser).ConsumeIndent: use IndentCols_zero(p.line, p.i + 1, p.col + 1)
+//@   callsite (*lineParser).ConsumeIndent: use IndentCols_zero(p.line, p.i + 1, p.col + p.tabRemaining)
+//@   callsite parseListMarker: use DigitsEnd_all($0, 0, len($0))
+//@   callsite parseListMarker: use DigitsEnd_bounds($0, 0, len($0))
+//@   serves C05, C13, C04
+
+//@ lemma DigitsEnd_all(s []byte, a int, b int)
+//@   requires a <= b
+//@   ensures forall k in [a, DigitsEnd(s, a, b)): IsDigit(s[k])
+//@   decreases b - a
+//@   ih DigitsEnd_all(s, a + 1, b)
+//@   use DigitsEnd_bounds(s, a + 1, b)
